@@ -21,6 +21,7 @@ type rateCase struct {
 	N     int64  `json:"n"`
 	M     int64  `json:"m"`
 	Unit  string `json:"unit"`
+	Dur   string `json:"dur"`
 }
 
 var unitNs = map[string]int64{"ns": 1, "us": 1e3, "µs": 1e3, "ms": 1e6, "s": 1e9, "m": 60e9, "h": 3600e9}
@@ -33,6 +34,8 @@ func (c rateCase) text() string {
 		return fmt.Sprintf("%d/%s", c.N, c.Unit)
 	case "n/mu":
 		return fmt.Sprintf("%d/%d%s", c.N, c.M, c.Unit)
+	case "n/du":
+		return fmt.Sprintf("%d/%s", c.N, c.Dur)
 	case "inf":
 		return "infinity"
 	case "empty":
